@@ -3,49 +3,68 @@ import itertools
 from vlib import common as C
 
 MANIFEST = {
-    "text": "Lean theorems about the transcription M of oscore_validate_sender_seq, oscore_roll_back_seq, the request path of "
-            "coap_oscore_decrypt_pdu and the sender sequence/save-watermark code: accept_at_most_once (every history of a recipient "
-            "context, any window size, Appendix B.1.2 on or off, jumps >= 64: accepted Partial IVs pairwise distinct), "
-            "forged_never_accepted / forgery_no_trace / forgery_invisible (a request failing authentication leaves initial_state, "
-            "last_seq and sliding_window unchanged in every state and changes no later verdict), fresh_in_window_accepted (liveness), "
-            "no_ub_shift, recv_conforms_spec + spec_accept_at_most_once (M refines the set-of-accepted-PIVs monitor S written from "
-            "RFC 8613, and S implies the property), piv_never_reused (PIVs strictly increasing over all protect / crash-restart "
-            "sequences, every ssn_freq). M is tied to the compiled code by differential runs of the real coap_oscore_decrypt_pdu / "
+    "text": "Lean theorems about the transcription M of oscore_validate_sender_seq, oscore_roll_back_seq, the request path AND the "
+            "response path of coap_oscore_decrypt_pdu (both on one recipient context) and the sender sequence/save-watermark code, "
+            "over histories that interleave protected requests and protected responses (Observe notifications with their own Partial "
+            "IV, responses without, authentic or forged) of the same peer in any order: accept_at_most_once / recorded_at_most_once "
+            "(any window size, Appendix B.1.2 on or off, jumps >= 64: accepted request Partial IVs pairwise distinct, whatever "
+            "responses with older or newer Partial IVs arrive in between), forged_never_accepted / forgery_no_trace / "
+            "forgery_no_trace_reachable / forgery_invisible (a request or response failing authentication leaves initial_state, "
+            "last_seq and sliding_window unchanged and changes no later verdict), fresh_in_window_accepted / fresh_response_accepted "
+            "(liveness), no_ub_shift / no_ub_recv, recv_conforms_spec + spec_accept_at_most_once (M refines the "
+            "set-of-accepted-PIVs monitor S written from RFC 8613, and S implies the property), piv_never_reused (PIVs strictly "
+            "increasing over all protect / crash-restart sequences, every ssn_freq). M is tied to the compiled code by differential "
+            "runs of the real coap_oscore_decrypt_pdu (request and response branch on the same recipient context) / "
             "coap_oscore_new_pdu_encrypted on generated and exhaustive short histories (I vs M vs S, state compared after every event).",
     "note": "Trusted: Lean kernel (+ propext, Classical.choice, Quot.sound), harness/replay.c, generators and the Python monitor, the "
             "hand transcription M (checked against the compiled code on the cases run only). The AEAD is an oracle (authentic / forged). "
-            "piv_never_reused assumes fewer than 2^63 operations (uint64 counter). Five defects of the pinned tree were fixed "
-            "(KNOWN_FINDINGS.txt); M models the fixed code.",
+            "piv_never_reused assumes fewer than 2^63 operations (uint64 counter). Seven defects of the pinned tree were fixed "
+            "(KNOWN_FINDINGS.txt); M models the fixed code. 'At most once' is claimed for requests (the property text); replays of "
+            "responses are only rejected once the window is initialised (SPEC DECISION D15f).",
     "design_ref": "DESIGN.md §4 C15, design/C15.md",
 }
 LEAN_MODULES = ["CoapVerif.Props.C15"]
 NAMESPACE = "Coap.C15"
-REQUIRED_THEOREMS = ["accept_at_most_once", "forged_never_accepted", "forgery_no_trace", "forgery_invisible",
-                     "fresh_in_window_accepted", "no_ub_shift", "no_ub_recv", "recv_conforms_spec",
+REQUIRED_THEOREMS = ["accept_at_most_once", "recorded_at_most_once", "forged_never_accepted", "forged_request_no_trace",
+                     "forgery_no_trace", "reachable_sane", "forgery_no_trace_reachable", "forgery_invisible",
+                     "fresh_in_window_accepted", "fresh_response_accepted", "no_ub_shift", "no_ub_recv", "recv_conforms_spec",
                      "spec_accept_at_most_once", "spec_forged_rejected", "piv_never_reused"]
-RULE = ("recipient: histories of <= 30 protected requests (authentic with/without/with wrong Echo, forged with any claimed "
-        "Partial IV) delivered through coap_oscore_decrypt_pdu to a fresh recipient context, replay window 1..63 (a few 64, 100), "
+RULE = ("recipient: histories of <= 30 protected messages delivered through coap_oscore_decrypt_pdu to ONE fresh recipient context: "
+        "requests (authentic with/without/with wrong Echo, forged with any claimed Partial IV) and, interleaved, responses to an "
+        "Observe registration of that endpoint (authentic notifications carrying the peer's sequence number as Partial IV, forged "
+        "responses claiming any Partial IV, authentic/forged responses without Partial IV); replay window 1..63 (a few 64, 100), "
         "Appendix B.1.2 on/off; PIVs chosen as small gaps, in-window lower values, both sides of the window edge, jumps >= 64, "
-        "replays of earlier PIVs, values next to 2^40-1; exhaustive short histories over a small PIV alphabet; "
+        "replays of earlier PIVs (same or other message kind), values next to 2^40-1; a peer simulation (one increasing sequence "
+        "number shared by requests and notifications, delayed / reordered / duplicated delivery, injected forgeries); exhaustive "
+        "short histories over small PIV alphabets with and without responses; "
         "sender: protect/crash-restart sequences with ssn_freq 1..9 (some large) through coap_oscore_new_pdu_encrypted and the "
-        "save callback; direct calls of oscore_validate_sender_seq on random states; the fixed corpus. "
-        "non-trivial = distinct history in which at least one request was accepted / one PIV was sent")
+        "save callback; direct calls of oscore_validate_sender_seq on random states; one to four messages delivered to a recipient "
+        "context preset to a random (also unreachable, e.g. last_seq >= 2^40-1) state; the fixed corpus. "
+        "non-trivial = distinct history in which at least one message was accepted / one PIV was sent")
 TRUSTED_BASE = ["Lean 4.33 kernel; axioms allowed: propext, Classical.choice, Quot.sound (audited per theorem each run)",
-                "harness/replay.c (drives coap_oscore_decrypt_pdu / coap_oscore_new_pdu_encrypted of the rebuilt libcoap; "
+                "harness/replay.c (drives coap_oscore_decrypt_pdu / coap_oscore_new_pdu_encrypted of the rebuilt libcoap, both endpoints "
+                "acting as client and server on one security context; "
                 "--wrap=coap_send_internal records the response, --wrap=oscore_cbor_put_bytes avoids memcpy(dst,NULL,0) in key "
                 "derivation), generators, the Python monitor in props/C15.py and string comparison",
                 "M (CoapVerif/Model/Replay.lean) is a hand transcription of oscore_validate_sender_seq, oscore_roll_back_seq, "
-                "oscore_increment_sender_seq and their call sites; checked against the compiled code only on the cases run",
+                "oscore_increment_sender_seq and their call sites (request and response branch of coap_oscore_decrypt_pdu); "
+                "checked against the compiled code only on the cases run",
                 "the AEAD (GnuTLS AES-CCM) is an oracle: 'authentic' = produced by the real sender code with the shared key, "
                 "'forged' = ciphertext that does not verify"]
-ASSUMPTIONS = ["a request that does not authenticate is one whose AEAD verification fails (cryptographic unforgeability is C14's oracle)",
+ASSUMPTIONS = ["a message that does not authenticate is one whose AEAD verification fails (cryptographic unforgeability is C14's oracle)",
+               "a response reaches the response branch with the association of its token present (token bookkeeping is C14/C16); "
+               "responses of one peer all use that peer's single sender sequence number space",
                "the value handed to the save callback is what start_seq_num is at the next start (the callback persists it)",
                "piv_never_reused: fewer than 2^63 protect/restart operations and a start value <= 2^40 (else the uint64 counter itself wraps)",
-               "requests of one recipient context are processed one at a time (thread safety is C13)",
+               "messages of one recipient context are processed one at a time (thread safety is C13)",
                "compiled Lean definitions agree with the kernel's reading of them"]
 SPEC_DECISIONS = ["D15a a never-accepted authentic request older than the window may be accepted or rejected; windows above 64 are capped at 64",
                   "D15b PIV >= 2^40-1 may be rejected", "D15c Appendix B.1.2: no Echo -> challenge, wrong Echo -> not accepted, right Echo -> accepted",
-                  "D15d 'state exactly as before' = (initial_state, last_seq, sliding_window); roll-back scratch fields excluded, shown irrelevant"]
+                  "D15d 'state exactly as before' = (initial_state, last_seq, sliding_window); roll-back scratch fields excluded, shown irrelevant",
+                  "D15e responses of the same peer that carry their own Partial IV share the peer's sequence numbers: the window's upper edge is "
+                  "the highest PIV accepted in a request or a response; a request whose PIV an accepted response already used may go either way",
+                  "D15f 'at most once' is asked of requests only: an authentic response with a PIV accepted before may go either way; a genuine "
+                  "response without PIV, or with a new PIV < 2^40-1 not older than the window, is accepted (unless a PIV >= 2^40-1 was accepted)"]
 WRAPS = ["coap_send_internal", "oscore_cbor_put_bytes"]
 SEQ_LIMIT = 2 ** 40 - 1
 
@@ -57,7 +76,11 @@ def harness(ctx):
 # ----------------------------------------------------------------------------------------------------------------
 # generators
 # ----------------------------------------------------------------------------------------------------------------
-def gen_history(rng, maxlen=30):
+def gen_history(rng, maxlen=30, responses=None):
+    """PIV-driven history; with `responses` some of the events are responses (notification n / forged y / without PIV r, z)
+    on the same recipient context, their PIVs drawn by the same rules (window edges, replays, jumps)"""
+    if responses is None:
+        responses = rng.random() < 0.5
     w = rng.choice([rng.randint(1, 63)] * 6 + [1, 2, 32, 63, 64, 100])
     b12 = rng.choice([0, 1])
     n = rng.randint(1, maxlen)
@@ -96,12 +119,72 @@ def gen_history(rng, maxlen=30):
             kind = rng.choice("ew")
         else:
             kind = "a"
-        if kind != "x":
+        if responses:
+            q = rng.random()
+            if q < 0.22:
+                kind = "n" if kind != "x" else "y"
+            elif q < 0.27:
+                kind = "y"
+            elif q < 0.30:
+                kind = rng.choice("rz")
+        if kind not in "xy":
             p = min(p, SEQ_LIMIT - 2)      # the real sender cannot protect a message with a higher sequence number
         p = min(p, 2 ** 40 - 1)            # a Partial IV has at most 5 bytes
-        evs.append("%s%d" % (kind, p))
-        seen.append(p)
+        if kind in "rz":
+            evs.append(kind + "0")
+        else:
+            evs.append("%s%d" % (kind, p))
+            seen.append(p)
         first = False
+    return "replay %d %d %s" % (w, b12, " ".join(evs))
+
+
+def gen_mixed(rng, maxlen=30):
+    """The peer as a process: ONE increasing sender sequence number shared by its requests and its notifications; the
+    network delays, reorders and duplicates datagrams, an attacker replays old ones and injects forged requests /
+    responses claiming any Partial IV."""
+    w = rng.choice([rng.randint(1, 63)] * 5 + [1, 2, 3, 32, 63, 64])
+    b12 = rng.choice([0, 0, 1])
+    n = rng.randint(2, maxlen)
+    seq = rng.choice([0, 0, 0, 1, 5, rng.randint(0, 200), rng.randint(0, 2 ** 20), 2 ** 32 - 3, SEQ_LIMIT - 40])
+    p_notify = rng.choice([0.2, 0.4, 0.6])
+    p_delay = rng.choice([0.15, 0.35, 0.6])
+    sent, pending, evs = [], [], []
+    synced = not b12
+    while len(evs) < n:
+        c = rng.random()
+        if c < 0.45 and seq < SEQ_LIMIT - 2:
+            if rng.random() < p_notify:
+                kind = "n"
+            elif not synced:
+                kind = rng.choice("eeeeaw")
+            else:
+                kind = "e" if b12 and rng.random() < 0.05 else "a"
+            d = "%s%d" % (kind, seq)
+            seq += rng.choice([1, 1, 1, 1, 1, 2, 3, w, w + 1, 63, 64, 65, rng.randint(1, 200)])
+            sent.append(d)
+            if rng.random() < p_delay:
+                pending.append(d)
+            else:
+                evs.append(d)
+                synced = synced or kind == "e"
+        elif c < 0.62 and pending:
+            d = pending.pop(rng.randrange(len(pending)))
+            evs.append(d)
+            synced = synced or d[0] == "e"
+        elif c < 0.80 and sent:
+            d = rng.choice(sent)                       # replay of an earlier datagram ...
+            if rng.random() < 0.12:                    # ... or the same sequence number in the other kind of message
+                d = ("a" if d[0] == "n" else "n") + d[1:]
+            evs.append(d)
+        elif c < 0.93:
+            top = seq
+            p = rng.choice([rng.choice(sent)[1:] if sent else "0", str(top), str(top + rng.randint(1, 70)),
+                            str(max(0, top - rng.randint(1, 70))), str(rng.randint(0, top + 100)),
+                            str(SEQ_LIMIT), str(SEQ_LIMIT - 1), str(top + rng.randint(64, 2 ** 30))])
+            evs.append(rng.choice("xyy") + str(min(int(p), 2 ** 40 - 1)))
+        else:
+            evs.append(rng.choice("rrz") + "0")
     return "replay %d %d %s" % (w, b12, " ".join(evs))
 
 
@@ -126,6 +209,27 @@ def gen_validate(rng):
     return "validate %d %d %d %d %d" % (w, rng.choice([0, 0, 0, 1]), last, win, piv)
 
 
+def gen_replayst(rng):
+    """one to four messages delivered to a recipient context in an arbitrary (also unreachable) state"""
+    w = rng.choice([rng.randint(1, 63), 1, 32, 64, 100])
+    b12 = rng.choice([0, 0, 1])
+    init = rng.choice([0, 0, 1])
+    last = rng.choice([0, 1, rng.randint(0, 300), rng.randint(0, 2 ** 40), SEQ_LIMIT - 2, SEQ_LIMIT - 1, SEQ_LIMIT, SEQ_LIMIT + 1,
+                       SEQ_LIMIT + rng.randint(0, 70), 2 ** 40 + 5])
+    win = rng.choice([0, 1, 3, 5, rng.getrandbits(64) | 1, rng.getrandbits(64), rng.getrandbits(8), 2 ** 63 + 1, 2 ** 64 - 1])
+    evs = []
+    for _ in range(rng.randint(1, 4)):
+        d = rng.choice([0, 1, -1, 2, -2, w, -w, w + 1, -w - 1, 63, -63, 64, -64, 65, -65, rng.randint(-80, 80)])
+        p = max(0, last + d)
+        kind = rng.choice("aaennnxyyyrz")
+        if kind in "rz":
+            evs.append(kind + "0")
+            continue
+        p = min(p, 2 ** 40 - 1 if kind in "xy" else SEQ_LIMIT - 2)
+        evs.append("%s%d" % (kind, p))
+    return "replayst %d %d %d %d %d %s" % (w, b12, init, last, win, " ".join(evs))
+
+
 def exhaustive(windows, b12s, alphabet, maxlen):
     out = []
     for w in windows:
@@ -145,25 +249,44 @@ def generate(ctx, escalate=False):
     out = []
     for i in range(n):
         out.append(gen_history(rng))
+    for i in range(n // 2):
+        out.append(gen_mixed(rng))
     for i in range(n // 4):
         out.append(gen_sender(rng))
     for i in range(n // 3):
         out.append(gen_validate(rng))
+    for i in range(n // 3):
+        out.append(gen_replayst(rng))
     # exhaustive short histories (every order of fresh / replay / forged over a small PIV alphabet incl. a jump >= 64)
     if thorough:
         alpha = [k + str(p) for k in "ax" for p in (0, 1, 2, 3, 4, 68, 69)]
         ex = exhaustive([1, 2, 3, 63], [0], alpha, 4)
         alpha_b = [k + str(p) for k in "aex" for p in (0, 1, 2, 66)]
         ex += exhaustive([1, 2, 32], [1], alpha_b, 4)
+        # requests and responses on one context
+        alpha_m = [k + str(p) for k in "an" for p in (0, 1, 2, 3, 67)] + [k + str(p) for k in "xy" for p in (1, 3, 70)] + ["r0"]
+        mx = exhaustive([2, 63], [0], alpha_m, 4)
+        alpha_mb = [k + str(p) for k in "aeny" for p in (0, 1, 3)]
+        mx += exhaustive([2, 32], [1], alpha_mb, 4)
     else:
         alpha = [k + str(p) for k in "ax" for p in (0, 1, 2, 4, 70)]
         ex = exhaustive([1, 2, 32], [0], alpha, 3)
         alpha_b = [k + str(p) for k in "aex" for p in (0, 1, 3)]
         ex += exhaustive([2], [1], alpha_b, 3)
+        # requests and responses on one context
+        alpha_m = [k + str(p) for k in "an" for p in (0, 1, 2, 3)] + [k + str(p) for k in "xy" for p in (1, 70)]
+        mx = exhaustive([1, 2, 32], [0], alpha_m, 3)
+        mx += exhaustive([32], [0], [k + str(p) for k in "an" for p in (0, 1, 2, 3)], 4)
+        alpha_mb = [k + str(p) for k in "aeny" for p in (0, 1, 3)]
+        mx += exhaustive([2], [1], alpha_mb, 3)
     ctx.cov["exhaustive"] = ("all histories of length <= %d over %d event symbols" % (4 if thorough else 3, len(alpha)) +
-                             " (windows %s, B.1.2 off) and over %d symbols with Echo (B.1.2 on): %d cases" % (
-                                 "1,2,3,63" if thorough else "1,2,32", len(alpha_b), len(ex)))
-    return out + ex
+                             " (windows %s, B.1.2 off) and over %d symbols with Echo (B.1.2 on): %d cases; " % (
+                                 "1,2,3,63" if thorough else "1,2,32", len(alpha_b), len(ex)) +
+                             "requests and responses interleaved on one recipient context: all histories of length <= %d over "
+                             "%d symbols (B.1.2 off) / %d symbols (B.1.2 on)%s: %d cases" % (
+                                 4 if thorough else 3, len(alpha_m), len(alpha_mb),
+                                 "" if thorough else ", length 4 over 8 symbols (window 32)", len(mx)))
+    return out + ex + mx
 
 
 # ----------------------------------------------------------------------------------------------------------------
@@ -173,22 +296,38 @@ def out_class(v):
     return "acc" if v == "acc" else "chal" if v == "chal" else "rej"
 
 
-def allowed(window, accepted, synced, kind, piv):
-    if kind == "x":
+BOTH = ["acc", "rej"]
+WHAT = {"x": "forged request", "a": "authentic request", "e": "authentic request with the right Echo",
+        "w": "authentic request with a wrong Echo", "n": "authentic notification with its own Partial IV",
+        "y": "forged response claiming a Partial IV", "r": "authentic response without Partial IV",
+        "z": "forged response without Partial IV"}
+
+
+def allowed(window, accepted, seen, synced, kind, piv):
+    """accepted: PIVs of accepted requests; seen: PIVs of accepted responses that carried their own Partial IV"""
+    if kind in "xyz":
         return ["rej"]
+    if kind == "r":
+        return ["acc"]
+    allp = accepted | seen
+    in_window = not allp or max(allp) < piv + min(window, 64)
+    if kind == "n":
+        if piv in allp:
+            return BOTH
+        if piv >= SEQ_LIMIT or (allp and max(allp) >= SEQ_LIMIT):
+            return BOTH
+        return ["acc"] if in_window else BOTH
     if not synced:
         if kind == "a":
             return ["chal"]
         if kind == "w":
             return ["rej"]
-        return ["acc", "rej"] if piv >= SEQ_LIMIT else ["acc"]
+        return BOTH if piv >= SEQ_LIMIT or piv in seen else ["acc"]
     if piv in accepted:
         return ["rej"]
-    if piv >= SEQ_LIMIT:
-        return ["acc", "rej"]
-    if not accepted or max(accepted) < piv + min(window, 64):
-        return ["acc"]
-    return ["acc", "rej"]
+    if piv >= SEQ_LIMIT or piv in seen:
+        return BOTH
+    return ["acc"] if in_window else BOTH
 
 
 def judge_replay(ctx, c):
@@ -200,29 +339,30 @@ def judge_replay(ctx, c):
     it, mt, st = i.split(), m.split(), s.split()
     if len(it) != len(evs):
         return ("tie", "harness printed %d results for %d events: %s" % (len(it), len(evs), i[:120]))
-    accepted, synced = set(), not b12
+    accepted, seen, synced = set(), set(), not b12
     prev = "1,0,0"
     lock = True
     tie = None
     for k, ev in enumerate(evs):
         kind, piv = ev[0], int(ev[1:])
+        if kind not in WHAT:
+            return ("tie", "unknown event %r" % ev)
         try:
             v, state = it[k].split(":")
         except ValueError:
             return ("tie", "unparsable harness token %r" % it[k])
-        al = allowed(window, accepted, synced, kind, piv)
+        al = allowed(window, accepted, seen, synced, kind, piv)
         cls = out_class(v)
         if cls not in al:
-            what = {"x": "forged request", "a": "authentic request", "e": "authentic request with the right Echo",
-                    "w": "authentic request with a wrong Echo"}[kind]
-            why = "event %d (%s, PIV %d): implementation %s, allowed %s" % (k + 1, what, piv, v, "/".join(al))
-            if cls == "acc" and piv in accepted:
-                why += " — PIV accepted twice"
-            elif kind != "x" and cls == "rej" and al == ["acc"]:
-                why += " — fresh in-window request rejected (accepted so far: %s)" % sorted(accepted)[-6:]
+            why = "event %d (%s, PIV %d): implementation %s, allowed %s" % (k + 1, WHAT[kind], piv, v, "/".join(al))
+            if cls == "acc" and kind in "aew" and piv in accepted:
+                why += " — request PIV accepted twice"
+            elif kind not in "xyz" and cls == "rej" and al == ["acc"]:
+                why += " — fresh in-window genuine message rejected (accepted so far: requests %s, responses %s)" % (
+                    sorted(accepted)[-6:], sorted(seen)[-6:])
             return ("spec", why)
-        if kind == "x" and state != prev:
-            return ("spec", "event %d: forged request (PIV %d) changed the replay state %s -> %s" % (k + 1, piv, prev, state))
+        if kind in "xyz" and state != prev:
+            return ("spec", "event %d: %s (PIV %d) changed the replay state %s -> %s" % (k + 1, WHAT[kind], piv, prev, state))
         if lock and k < len(st) and "/".join(al) != st[k] and tie is None:
             tie = ("tie", "event %d: Lean S allows %s, the Python monitor %s" % (k + 1, st[k], "/".join(al)))
         if lock and (k >= len(mt) or it[k] != mt[k]):
@@ -230,10 +370,42 @@ def judge_replay(ctx, c):
             if tie is None:
                 tie = ("tie", "event %d (%s): implementation %s but model M says %s" % (k + 1, ev, it[k], mt[k] if k < len(mt) else "-"))
         if cls == "acc":
-            accepted.add(piv)
-            synced = True
+            if kind == "n":
+                seen.add(piv)
+            elif kind != "r":
+                accepted.add(piv)
+                synced = True
         prev = state
     return tie
+
+
+def judge_replayst(ctx, c):
+    """arbitrary start state: I = M event by event; a message that fails authentication is never accepted and, in every
+    state with last_seq < 2^40-1 once the window is initialised (theorem forgery_no_trace), changes nothing"""
+    w = c["input"].split()
+    evs = w[6:]
+    i, m = c["impl"] or "", c["model"] or ""
+    if i.startswith("crash"):
+        return ("spec", "the implementation aborted (sanitizer / undefined behaviour): " + i[:200])
+    it, mt = i.split(), m.split()
+    if len(it) != len(evs):
+        return ("tie", "harness printed %d results for %d events: %s" % (len(it), len(evs), i[:120]))
+    prev = "%d,%d,%d" % (int(w[3]) != 0, int(w[4]), int(w[5]))
+    for k, ev in enumerate(evs):
+        try:
+            v, state = it[k].split(":")
+        except ValueError:
+            return ("tie", "unparsable harness token %r" % it[k])
+        if ev[0] in "xyz":
+            if v == "acc":
+                return ("spec", "event %d: %s (PIV %s) accepted" % (k + 1, WHAT[ev[0]], ev[1:]))
+            pi, pl, _ = prev.split(",")
+            if state != prev and (pi == "1" or int(pl) < SEQ_LIMIT):
+                return ("spec", "event %d: %s (PIV %s) changed the replay state %s -> %s" % (k + 1, WHAT[ev[0]], ev[1:], prev, state))
+        prev = state
+    if i != m:
+        return ("tie", "implementation %s but model M says %s" % (i[:150], m[:150]))
+    return None
 
 
 def judge_sender(ctx, c):
@@ -266,6 +438,8 @@ def judge(ctx, c):
     op = c["input"].split()[0]
     if op == "replay":
         return judge_replay(ctx, c)
+    if op == "replayst":
+        return judge_replayst(ctx, c)
     if op == "sender":
         return judge_sender(ctx, c)
     if op == "validate":
@@ -281,7 +455,7 @@ def judge(ctx, c):
 def nontrivial(c):
     i = c["impl"] or ""
     op = c["input"].split()[0]
-    if op == "replay":
+    if op in ("replay", "replayst"):
         return "acc:" in i
     if op == "sender":
         return any(t[0].isdigit() for t in i.split())
@@ -291,7 +465,7 @@ def nontrivial(c):
 def classify(c):
     w = c["input"].split()
     if w[0] == "replay":
-        return "replay:b12=%s" % w[2]
+        return "replay:b12=%s%s" % (w[2], ":with-responses" if any(e[0] in "nyrz" for e in w[3:]) else "")
     return w[0]
 
 
@@ -306,9 +480,13 @@ def mutate(rng, line):
         del evs[k]
     elif c < 0.6:
         evs.insert(k, rng.choice(evs))
+    elif c < 0.7:
+        evs[k] = rng.choice("aaxenny") + evs[k][1:]
+        if evs[k][0] not in "xy":
+            evs[k] = evs[k][0] + str(min(int(evs[k][1:]), SEQ_LIMIT - 2))
     else:
         p = max(0, int(evs[k][1:]) + rng.choice([-65, -64, -63, -2, -1, 1, 2, 63, 64, 65]))
-        evs[k] = rng.choice("aaxe") + str(min(p, SEQ_LIMIT - 2))
+        evs[k] = rng.choice("aaxenny") + str(min(p, SEQ_LIMIT - 2))
     if rng.random() < 0.2:
         w[1] = str(rng.randint(1, 63))
     return " ".join(w[:3] + evs[:40])
@@ -322,7 +500,10 @@ def search(ctx, tie_breaks, proof):
             out.append(mutate(rng, c["input"]))
     alpha = [k + str(p) for k in "ax" for p in (0, 1, 2, 3, 4, 68, 69)]
     out += exhaustive([1, 2, 3, 63], [0], alpha, 4)
-    out += [gen_history(rng) for _ in range(60000)]
+    alpha_m = [k + str(p) for k in "an" for p in (0, 1, 2, 3, 67)] + [k + str(p) for k in "xy" for p in (1, 3, 70)]
+    out += exhaustive([2, 32], [0], alpha_m, 4)
+    out += [gen_history(rng) for _ in range(40000)]
+    out += [gen_mixed(rng) for _ in range(30000)]
     return out
 
 
@@ -331,21 +512,22 @@ def shrink(ctx, case):
     from vlib.runner import diff_side
     import props.C15 as me
     w = case["input"].split()
-    if w[0] not in ("replay", "sender") or len(w) < 5:
+    hdr = 6 if w[0] == "replayst" else 3
+    if w[0] not in ("replay", "replayst", "sender") or len(w) < hdr + 2:
         return case
-    best, evs = case, w[3:]
+    best, evs = case, w[hdr:]
     changed, rounds = True, 0
     while changed and rounds < 8 and len(evs) > 1:
         changed = False
         rounds += 1
         cands = [evs[:k] + evs[k + 1:] for k in range(len(evs))]
-        lines = [" ".join(w[:3] + e) for e in cands]
+        lines = [" ".join(w[:hdr] + e) for e in cands]
         for cc in diff_side(ctx, me, lines):
             v = judge(ctx, cc)
             if v and v[0] == "spec":
                 cc["why"] = v[1]
                 best = cc
-                evs = cc["input"].split()[3:]
+                evs = cc["input"].split()[hdr:]
                 changed = True
                 break
     return best
